@@ -31,6 +31,10 @@ type Scenario struct {
 	N       map[string]int64 `json:"n,omitempty"` // numeric knobs
 	Keys    []KeySpec        `json:"keys,omitempty"`
 	Note    string           `json:"note,omitempty"`
+	// Prelude: scenarios executed first, in the same process, results ignored.
+	// A violation that depends on state an EARLIER execution left behind in the
+	// process (a pool, a cache) replays only together with that execution.
+	Prelude []*Scenario `json:"prelude,omitempty"`
 	// Expect is filled in when a scenario is written as a replay file.
 	Expect *Expect `json:"expect,omitempty"`
 }
